@@ -1022,10 +1022,14 @@ def _mask(sig, num_args, hide_args, hide_kwargs,
                 'Named parameter {0!r} not found in signature: {1}'
                 .format(kwarg_name, sig))
         elif partial_mode:
-            kwoargs[kwarg_name] = UpgradedParameter(
-                kwarg_name, _util.funcsigs.Parameter.KEYWORD_ONLY,
-                default=named_args[kwarg_name])
-            src[kwarg_name] = [partial_obj]
+            stars = [p.name for p in (varargs, varkwargs) if p is not None]
+            if kwarg_name not in stars:
+                kwoargs[kwarg_name] = UpgradedParameter(
+                    kwarg_name, _util.funcsigs.Parameter.KEYWORD_ONLY,
+                    default=named_args[kwarg_name])
+                src[kwarg_name] = [partial_obj]
+            # else: spelled like a star parameter (partial(f, args=1) for
+            # f(*args, **kwargs)), it cannot be shown; **kwargs takes it
         consumed_names.add(kwarg_name)
 
     if hide_kwargs:
